@@ -200,3 +200,21 @@ func (c *ctx) close() {
 
 func (c *ctx) pick(xs ...string) string { return xs[c.rng.Intn(len(xs))] }
 func (c *ctx) chance(p float64) bool    { return c.rng.Float64() < p }
+
+// attrNum spells the non-negative attribute argument n as WGSL allows: decimal (mostly), with a `u` / `i` suffix, or hexadecimal.
+func (c *ctx) attrNum(n int) string {
+	switch r := c.rng.Intn(20); {
+	case r < 13:
+		return fmt.Sprintf("%d", n)
+	case r < 15:
+		return fmt.Sprintf("%du", n)
+	case r < 16:
+		return fmt.Sprintf("%di", n)
+	case r < 18:
+		return fmt.Sprintf("0x%x", n)
+	case r < 19:
+		return fmt.Sprintf("0X%Xu", n)
+	default:
+		return fmt.Sprintf("%d,", n) // trailing comma
+	}
+}
